@@ -18,6 +18,13 @@
                          SfmAtomic = FALSE: O_TRUNC, then write (pinned commit): SfmTrunc and SfmFill are two steps
         MarkDone         the flush call returns (harness marker "flush.done")
      rotation of the segment:
+        TreeBegin / TreeLev / TreeEnd   (Tree = TRUE: the persistent-query machinery tracks group-by columns) the agile tree
+                         of the segment is written: meta file .strm opened, level file .strl written, .strm completed.
+                         Queries take the existence of .strm as "this segment has a tree" and read it at once.
+                         TreeAtomic = FALSE (pinned commit): .strm is created under its final name and filled later;
+                         TreeAtomic = TRUE (the "fix:" commit): written as .strm.tmp and renamed when complete
+        RotSfmWrite      .sfm rewritten once more with the final counts (same mechanism as SfmWrite; found by trace
+                         validation: the first version of this spec did not have the step and rejected every real trace)
         SegmetaAppend    one line appended to segmeta.json
         RotDone          in-memory only (metadata visible / unrotated info removed), next suffix taken
      Crash, then Recover:
@@ -29,65 +36,81 @@ EXTENDS Naturals, Sequences, FiniteSets, TLC
 CONSTANTS NF,         \* flushes of the segment before rotation
           Cols,       \* column names
           SfmAtomic,  \* BOOLEAN, see above
-          Rotate      \* BOOLEAN: does a rotation follow the NF flushes
+          Rotate,     \* BOOLEAN: does a rotation follow the NF flushes
+          Tree,       \* BOOLEAN: does the rotation write an agile tree
+          TreeAtomic  \* BOOLEAN, see above
 
 VARIABLES blk,        \* block being flushed (1..NF), NF+1 when all flushes are done
-          step,       \* "cols" | "bsu" | "ssttmp" | "sstren" | "sfm" | "sfmfill" | "mark" | "segmeta" | "rotdone" | "end"
+          step,       \* "cols" | "bsu" | "ssttmp" | "sstren" | "sfm" | "sfmfill" | "mark" | "tree" | "treelev" | "treeend" | "rotsfm" | "rotsfmfill" |
+                      \* "segmeta" | "rotdone" | "end"
           cpc,        \* [Cols -> "todo" | "torn" | "ok"]  state of chunk blk of each column
           csg,        \* [Cols -> number of complete chunks]  (+ cpc says whether a torn one follows)
           bsu,        \* number of block summaries in .bsu
           sst,        \* [tmp, fin]: blocks covered by .sst.tmp / .sst
           sfm,        \* [st |-> "absent" | "empty" | "ok", n |-> blocks recorded]
+          strm,       \* "absent" | "partial" | "complete": what a reader of <segkey>.strm finds
           segmeta,    \* 0 = not listed, else the number of blocks its segmeta.json line records
           done,       \* number of flushes whose call returned before the crash
           crashed,
           visible,    \* after recovery: set of blocks whose events are searchable
           statsBlocks \* after recovery: number of blocks the segment's record count / statistics cover
-vars == <<blk, step, cpc, csg, bsu, sst, sfm, segmeta, done, crashed, visible, statsBlocks>>
+vars == <<blk, step, cpc, csg, bsu, sst, sfm, strm, segmeta, done, crashed, visible, statsBlocks>>
 
 Init == /\ blk = 1 /\ step = "cols" /\ cpc = [c \in Cols |-> "todo"] /\ csg = [c \in Cols |-> 0]
-        /\ bsu = 0 /\ sst = [tmp |-> 0, fin |-> 0] /\ sfm = [st |-> "absent", n |-> 0] /\ segmeta = 0
+        /\ bsu = 0 /\ sst = [tmp |-> 0, fin |-> 0] /\ sfm = [st |-> "absent", n |-> 0] /\ strm = "absent" /\ segmeta = 0
         /\ done = 0 /\ crashed = FALSE /\ visible = {} /\ statsBlocks = 0
 
 Live == ~crashed
 ColStart(c) == /\ Live /\ step = "cols" /\ cpc[c] = "todo" /\ cpc' = [cpc EXCEPT ![c] = "torn"]
-               /\ UNCHANGED <<blk, step, csg, bsu, sst, sfm, segmeta, done, crashed, visible, statsBlocks>>
+               /\ UNCHANGED <<blk, step, csg, bsu, sst, sfm, strm, segmeta, done, crashed, visible, statsBlocks>>
 ColFinish(c) == /\ Live /\ step = "cols" /\ cpc[c] = "torn"
                 /\ cpc' = [cpc EXCEPT ![c] = "ok"] /\ csg' = [csg EXCEPT ![c] = @ + 1]
-                /\ UNCHANGED <<blk, step, bsu, sst, sfm, segmeta, done, crashed, visible, statsBlocks>>
+                /\ UNCHANGED <<blk, step, bsu, sst, sfm, strm, segmeta, done, crashed, visible, statsBlocks>>
 ColsJoined == /\ Live /\ step = "cols" /\ \A c \in Cols : cpc[c] = "ok" /\ step' = "bsu"
-              /\ UNCHANGED <<blk, cpc, csg, bsu, sst, sfm, segmeta, done, crashed, visible, statsBlocks>>
+              /\ UNCHANGED <<blk, cpc, csg, bsu, sst, sfm, strm, segmeta, done, crashed, visible, statsBlocks>>
 BsuAppend == /\ Live /\ step = "bsu" /\ bsu' = blk /\ step' = "ssttmp"
-             /\ UNCHANGED <<blk, cpc, csg, sst, sfm, segmeta, done, crashed, visible, statsBlocks>>
+             /\ UNCHANGED <<blk, cpc, csg, sst, sfm, strm, segmeta, done, crashed, visible, statsBlocks>>
 SstTmp == /\ Live /\ step = "ssttmp" /\ sst' = [sst EXCEPT !.tmp = blk] /\ step' = "sstren"
-          /\ UNCHANGED <<blk, cpc, csg, bsu, sfm, segmeta, done, crashed, visible, statsBlocks>>
+          /\ UNCHANGED <<blk, cpc, csg, bsu, sfm, strm, segmeta, done, crashed, visible, statsBlocks>>
 SstRename == /\ Live /\ step = "sstren" /\ sst' = [sst EXCEPT !.fin = sst.tmp] /\ step' = "sfm"
-             /\ UNCHANGED <<blk, cpc, csg, bsu, sfm, segmeta, done, crashed, visible, statsBlocks>>
+             /\ UNCHANGED <<blk, cpc, csg, bsu, sfm, strm, segmeta, done, crashed, visible, statsBlocks>>
 SfmWrite == /\ Live /\ step = "sfm"
             /\ IF SfmAtomic THEN sfm' = [st |-> "ok", n |-> blk] /\ step' = "mark"
                ELSE sfm' = [st |-> "empty", n |-> 0] /\ step' = "sfmfill"         \* O_TRUNC
-            /\ UNCHANGED <<blk, cpc, csg, bsu, sst, segmeta, done, crashed, visible, statsBlocks>>
+            /\ UNCHANGED <<blk, cpc, csg, bsu, sst, strm, segmeta, done, crashed, visible, statsBlocks>>
 SfmFill == /\ Live /\ step = "sfmfill" /\ sfm' = [st |-> "ok", n |-> blk] /\ step' = "mark"
-           /\ UNCHANGED <<blk, cpc, csg, bsu, sst, segmeta, done, crashed, visible, statsBlocks>>
+           /\ UNCHANGED <<blk, cpc, csg, bsu, sst, strm, segmeta, done, crashed, visible, statsBlocks>>
 MarkDone == /\ Live /\ step = "mark" /\ done' = blk /\ blk' = blk + 1
             /\ cpc' = [c \in Cols |-> "todo"]
-            /\ step' = IF blk < NF THEN "cols" ELSE IF Rotate THEN "segmeta" ELSE "end"
-            /\ UNCHANGED <<csg, bsu, sst, sfm, segmeta, crashed, visible, statsBlocks>>
-SegmetaAppend == /\ Live /\ step = "segmeta" /\ segmeta' = NF /\ step' = "rotdone"
-                 /\ UNCHANGED <<blk, cpc, csg, bsu, sst, sfm, done, crashed, visible, statsBlocks>>
-RotDone == /\ Live /\ step = "rotdone" /\ step' = "end"
+            /\ step' = IF blk < NF THEN "cols" ELSE IF Rotate THEN (IF Tree THEN "tree" ELSE "rotsfm") ELSE "end"
+            /\ UNCHANGED <<csg, bsu, sst, sfm, strm, segmeta, crashed, visible, statsBlocks>>
+TreeBegin == /\ Live /\ step = "tree" /\ strm' = (IF TreeAtomic THEN "absent" ELSE "partial") /\ step' = "treelev"
+             /\ UNCHANGED <<blk, cpc, csg, bsu, sst, sfm, segmeta, done, crashed, visible, statsBlocks>>
+TreeLev == /\ Live /\ step = "treelev" /\ step' = "treeend"
+           /\ UNCHANGED <<blk, cpc, csg, bsu, sst, sfm, strm, segmeta, done, crashed, visible, statsBlocks>>
+TreeEnd == /\ Live /\ step = "treeend" /\ strm' = "complete" /\ step' = "rotsfm"
            /\ UNCHANGED <<blk, cpc, csg, bsu, sst, sfm, segmeta, done, crashed, visible, statsBlocks>>
+RotSfmWrite == /\ Live /\ step = "rotsfm"
+               /\ IF SfmAtomic THEN sfm' = [st |-> "ok", n |-> NF] /\ step' = "segmeta"
+                  ELSE sfm' = [st |-> "empty", n |-> 0] /\ step' = "rotsfmfill"
+               /\ UNCHANGED <<blk, cpc, csg, bsu, sst, strm, segmeta, done, crashed, visible, statsBlocks>>
+RotSfmFill == /\ Live /\ step = "rotsfmfill" /\ sfm' = [st |-> "ok", n |-> NF] /\ step' = "segmeta"
+              /\ UNCHANGED <<blk, cpc, csg, bsu, sst, strm, segmeta, done, crashed, visible, statsBlocks>>
+SegmetaAppend == /\ Live /\ step = "segmeta" /\ segmeta' = NF /\ step' = "rotdone"
+                 /\ UNCHANGED <<blk, cpc, csg, bsu, sst, sfm, strm, done, crashed, visible, statsBlocks>>
+RotDone == /\ Live /\ step = "rotdone" /\ step' = "end"
+           /\ UNCHANGED <<blk, cpc, csg, bsu, sst, sfm, strm, segmeta, done, crashed, visible, statsBlocks>>
 
 Readable(b) == \A c \in Cols : csg[c] >= b
 Adopted == segmeta > 0 \/ sfm.st = "ok"
 Crash == /\ ~crashed /\ crashed' = TRUE
          /\ visible' = IF ~Adopted THEN {} ELSE {b \in 1..bsu : Readable(b)}
          /\ statsBlocks' = IF segmeta > 0 THEN segmeta ELSE IF sfm.st = "ok" THEN sfm.n ELSE 0
-         /\ UNCHANGED <<blk, step, cpc, csg, bsu, sst, sfm, segmeta, done>>
+         /\ UNCHANGED <<blk, step, cpc, csg, bsu, sst, sfm, strm, segmeta, done>>
 
 Next == \/ \E c \in Cols : ColStart(c) \/ ColFinish(c)
         \/ ColsJoined \/ BsuAppend \/ SstTmp \/ SstRename \/ SfmWrite \/ SfmFill \/ MarkDone
-        \/ SegmetaAppend \/ RotDone \/ Crash
+        \/ TreeBegin \/ TreeLev \/ TreeEnd \/ RotSfmWrite \/ RotSfmFill \/ SegmetaAppend \/ RotDone \/ Crash
 Spec == Init /\ [][Next]_vars
 -----------------------------------------------------------------------------
 \* every flush that had completed before the crash is searchable afterwards
@@ -98,5 +121,8 @@ NoInvent == crashed => visible \subseteq 1..(done + 1)
 BsuImpliesReadable == \A b \in 1..bsu : Readable(b)
 \* what the segment's recorded counts cover = what is searchable (else count(*) and a record search disagree)
 CountAgrees == (crashed /\ Adopted) => statsBlocks = Cardinality(visible)
-TypeOK == step \in {"cols", "bsu", "ssttmp", "sstren", "sfm", "sfmfill", "mark", "segmeta", "rotdone", "end"}
+\* after a crash a group-by query never finds a half-written agile tree (it would read it: wrong answer or process death)
+TreeReadable == crashed => strm # "partial"
+TypeOK == /\ step \in {"cols", "bsu", "ssttmp", "sstren", "sfm", "sfmfill", "mark", "tree", "treelev", "treeend", "rotsfm", "rotsfmfill", "segmeta", "rotdone", "end"}
+          /\ strm \in {"absent", "partial", "complete"}
 =============================================================================
